@@ -57,6 +57,33 @@ func (s *Server) VerifAddrIndexSize() (n int) {
 	return
 }
 
+// Number of places where the address index and the buckets disagree: index entries without a bucket node of
+// that address and ID, and bucket nodes that are not indexed under their address.
+func (s *Server) VerifAddrIndexMismatch() (n int) {
+	s.mu.Lock()
+	defer s.mu.Unlock()
+	inBuckets := make(map[string]map[int160.T]struct{})
+	s.table.forNodes(func(nd *node) bool {
+		as := nd.Addr.String()
+		if inBuckets[as] == nil {
+			inBuckets[as] = make(map[int160.T]struct{})
+		}
+		inBuckets[as][nd.Id] = struct{}{}
+		if _, ok := s.table.addrs[as][nd.Id]; !ok {
+			n++
+		}
+		return true
+	})
+	for as, ids := range s.table.addrs {
+		for id := range ids {
+			if _, ok := inBuckets[as][id]; !ok {
+				n++
+			}
+		}
+	}
+	return
+}
+
 // Equivalent to d elapsing for every routing table entry.
 func (s *Server) VerifAgeTable(d time.Duration) {
 	s.mu.Lock()
